@@ -37,18 +37,52 @@ def empty_like(*a, **kw):
     return _poison(_np.empty_like(*a, **kw))
 
 
+class _MaskedUfunc(object):
+    """A ufunc called with `where=` and without `out=` leaves the masked-out entries of its freshly allocated result
+    uninitialised: the same allocation-history dependence as np.empty.  The wrapper hands such a call a poisoned
+    `out` of the shape and dtype NumPy would have chosen; every other call is forwarded unchanged."""
+
+    def __init__(self, uf):
+        self._uf = uf
+
+    def __getattr__(self, name):
+        return getattr(self._uf, name)
+
+    def __call__(self, *args, **kw):
+        w = kw.get("where", True)
+        if w is not True and kw.get("out") is None and len(args) == self._uf.nin and self._uf.nout == 1:
+            try:
+                kw2 = {k_: v for k_, v in kw.items() if k_ not in ("where", "out")}
+                probe = self._uf(*args, **kw2)                    # full evaluation: only its shape and dtype are used
+                if isinstance(probe, _np.ndarray) and probe.ndim > 0:
+                    STATS["empty_calls"] += 1
+                    out = _poison(_np.empty_like(probe))
+                    return self._uf(*args, out=out, **{k_: v for k_, v in kw.items() if k_ != "out"})
+            except Exception:
+                pass
+        return self._uf(*args, **kw)
+
+
 class NPView(object):
-    """Forwards every attribute to `base` except the given overrides."""
+    """Forwards every attribute to `base` except the given overrides; ufuncs are handed out wrapped (see above)."""
 
     def __init__(self, base, **overrides):
         object.__setattr__(self, "_base", base)
         object.__setattr__(self, "_over", overrides)
+        object.__setattr__(self, "_ufuncs", {})
 
     def __getattr__(self, name):
         over = object.__getattribute__(self, "_over")
         if name in over:
             return over[name]
-        return getattr(object.__getattribute__(self, "_base"), name)
+        v = getattr(object.__getattribute__(self, "_base"), name)
+        if isinstance(v, _np.ufunc):
+            cache = object.__getattribute__(self, "_ufuncs")
+            w = cache.get(name)
+            if w is None:
+                w = cache[name] = _MaskedUfunc(v)
+            return w
+        return v
 
 
 def install():
